@@ -455,6 +455,9 @@ const PIECES: [&[usize]; 2] = [&[1], &[2, 1, 5, 3, 64, 1, 1000, 7]];
 struct Obs {
     /// decoding the same bytes from a source that delivers them in pieces gave the same result (ok-ness, value, bytes consumed)
     segmented_same: bool,
+    /// what write_packet produced for the value (hex), and whether the length it reports is the number of bytes written
+    framed: String,
+    framed_len_reported: bool,
     encoded: String,
     id: i64,
     decoded_ok: bool,
@@ -487,7 +490,7 @@ fn note(o: &mut Obs, what: &str, e: impl std::fmt::Display) {
 /// `value` = Some(abstract value): encode it and decode `wire`; None: only decode `wire` (reject vectors).
 fn run_packet<T>(rt: &Runtime, value: Option<&Value>, wire: &[u8]) -> Obs
 where
-    T: Abs + Packet + WritePacket + ReadPacket + PartialEq + Send + Sync,
+    T: Abs + Packet + WritePacket + ReadPacket + PartialEq + Send + Sync + std::fmt::Debug,
 {
     let mut o = Obs { id: i64::from(T::ID), ..Obs::default() };
     let original = match value.map(T::build) {
@@ -510,6 +513,25 @@ where
             Err(_) => {
                 o.panic = true;
                 note(&mut o, "encode", "panic");
+            }
+        }
+    }
+    // the same value as a FRAME (length prefix, packet id, body) through the crate's write_packet
+    if let Some(Ok(p2)) = value.map(T::build) {
+        match catch_unwind(AssertUnwindSafe(|| {
+            rt.block_on(async {
+                let mut out: Vec<u8> = Vec::new();
+                out.write_packet(p2).await.map(|n| (out, n))
+            })
+        })) {
+            Ok(Ok((out, n))) => {
+                o.framed = hex(&out);
+                o.framed_len_reported = n == out.len();
+            }
+            Ok(Err(e)) => note(&mut o, "frame", e),
+            Err(_) => {
+                o.panic = true;
+                note(&mut o, "frame", "panic");
             }
         }
     }
@@ -760,6 +782,8 @@ pub fn main(args: &[String]) {
             "decoded_value_roundtrip": o.roundtrip,
             "consumed_all": o.consumed_all,
             "segmented_same": o.segmented_same,
+            "framed": o.framed,
+            "framed_len_reported": o.framed_len_reported,
             "id": o.id,
             "error": o.error,
             "panic": o.panic,
